@@ -1449,3 +1449,128 @@ Lemma iobj_fresh_remembered : forall c ops x,
   pp_addr (io_peer (iobj_run repaired (mkiobj c ipeer0) ops)) = Some x ->
   ipcp_kind (io_cfg (iobj_run repaired (mkiobj c ipeer0) ops)) (mkopt 3 x) = KAck.
 Proof. intros c ops. apply iobj_run_remembered. intros x H. discriminate. Qed.
+
+(* ------------------------------------------------------------------ IPv6CP session: identity on the wire *)
+Definition v6_inv (s : v6sess) : Prop :=
+  vs_last s = v6_build (vs_obj s) /\ In (vs_fsm s) [6; 7; 8; 9]%N.
+Definition is_v6start (e : v6ev) : bool := match e with V6Start _ => true | _ => false end.
+
+Lemma v6_build_same : forall o o', vo_local o' = vo_local o -> vo_rej o' = vo_rej o -> v6_build o' = v6_build o.
+Proof. intros o o' H1 H2. unfold v6_build. rewrite H1, H2. reflexivity. Qed.
+
+Lemma v6_learn_build : forall o, vo_local (fold_left v6_learn_opt (v6_build o) o) = vo_local o /\
+                                 vo_rej (fold_left v6_learn_opt (v6_build o) o) = vo_rej o.
+Proof.
+  intros o. unfold v6_build. destruct (negb (existsb (N.eqb 1) (vo_rej o))); simpl; auto.
+  unfold v6_learn_opt, iid_option. simpl. destruct (Nat.eqb (length (vo_local o)) 8); simpl; auto.
+Qed.
+
+Lemma v6_learn_rej : forall os o, vo_rej (fold_left v6_learn_opt os o) = vo_rej o.
+Proof.
+  induction os as [|x os IH]; intros o; simpl; auto. rewrite IH. unfold v6_learn_opt.
+  destruct (N.eqb (o_type x) 1 && Nat.eqb (length (o_data x)) 8); reflexivity.
+Qed.
+
+Lemma v6_start_inv : forall r m, v6_inv (fst (v6sess_step (v6sess0 r) (V6Start m))).
+Proof. intros r m. unfold v6_inv. simpl. split; auto. Qed.
+
+Lemma v6sess_step_inv : forall s e, is_v6start e = false -> v6_inv s -> v6_inv (fst (v6sess_step s e)).
+Proof.
+  intros s e He [HL HS]. unfold v6_inv.
+  assert (Hreq : forall id wire orc,
+    let '(a, st', p') := ipv6cp_input (vo_local (vs_obj s)) (vs_fsm s) (vo_peer (vs_obj s)) orc id wire in
+    v6_next (mkv6obj (vo_local (vs_obj s)) (vo_rej (vs_obj s)) p') a (vs_last s) =
+      v6_build (mkv6obj (vo_local (vs_obj s)) (vo_rej (vs_obj s)) p') /\ In st' [6; 7; 8; 9]%N).
+  { intros id wire orc. unfold ipv6cp_input.
+    destruct (parse_wire wire) as [os| | |];
+      try (split; [unfold v6_next; simpl; rewrite HL; apply v6_build_same; reflexivity|exact HS]).
+    set (r := v6_res (ipv6cp_req (vo_local (vs_obj s)) (vo_peer (vs_obj s)) orc os)).
+    simpl in HS. unfold v6_next.
+    destruct HS as [H|[H|[H|[H|[]]]]]; rewrite <- H; unfold rcr_event, reply;
+      (destruct (is_good r); [|destruct (has_rej r)]); simpl;
+      try rewrite HL; (split; [try apply v6_build_same; reflexivity|auto 6]). }
+  destruct e as [m|id wire orc|id orc|  |w|w]; [discriminate| | | | |]; cbn [v6sess_step].
+  - specialize (Hreq id wire orc). destruct (ipv6cp_input _ _ _ _ _ _) as [[a st'] p']. simpl. exact Hreq.
+  - specialize (Hreq id (serialize_options (vs_last s)) orc).
+    destruct (ipv6cp_input _ _ _ _ _ _) as [[a st'] p']. simpl. exact Hreq.
+  - simpl. rewrite HL. destruct (v6_learn_build (vs_obj s)) as [E1 E2].
+    assert (B : v6_build (fold_left v6_learn_opt (v6_build (vs_obj s)) (vs_obj s)) = v6_build (vs_obj s))
+      by (apply v6_build_same; auto).
+    simpl in HS. unfold v6_next.
+    destruct HS as [H|[H|[H|[H|[]]]]]; rewrite <- H; simpl; rewrite ?B; auto 6.
+  - simpl. simpl in HS. unfold v6_next.
+    destruct HS as [H|[H|[H|[H|[]]]]]; rewrite <- H; simpl; auto 6.
+  - simpl. simpl in HS. unfold v6_next.
+    destruct HS as [H|[H|[H|[H|[]]]]]; rewrite <- H; simpl; auto 6.
+Qed.
+
+Lemma v6sess_run_inv : forall es s, forallb (fun e => negb (is_v6start e)) es = true ->
+  v6_inv s -> v6_inv (v6sess_run s es).
+Proof.
+  induction es as [|e es IH]; intros s H Hi; simpl in *; auto.
+  apply andb_true_iff in H. destruct H as [H1 H2]. apply IH; auto. apply v6sess_step_inv; auto.
+  destruct (is_v6start e); [discriminate|reflexivity].
+Qed.
+
+(* after startNCP, whatever the subscriber sends: what our outstanding Configure-Request announces is the
+   identifier ProcessConfReq compares with; so an identifier we have on the wire is never acknowledged *)
+Lemma v6_wire_identity : forall r m es s,
+  forallb (fun e => negb (is_v6start e)) es = true ->
+  s = v6sess_run (fst (v6sess_step (v6sess0 r) (V6Start m))) es ->
+  vs_last s = v6_build (vs_obj s) /\
+  forall e acts id' os, is_v6start e = false -> snd (v6sess_step s e) = acts -> In (Sca id' os) acts ->
+    forall o x, In o os -> In x (vs_last s) -> o_data o <> o_data x.
+Proof.
+  intros r m es s Hes ->. set (s := v6sess_run _ es).
+  pose proof (v6sess_run_inv es _ Hes (v6_start_inv r m)) as [HL HS]. fold s in HL, HS.
+  split; [exact HL|].
+  intros e acts id' os He Hacts Hs o x Ho Hx.
+  assert (Hx' : o_data x = vo_local (vs_obj s)).
+  { rewrite HL in Hx. unfold v6_build in Hx. destruct (negb _); [|contradiction].
+    destruct Hx as [<-|[]]. reflexivity. }
+  rewrite Hx'.
+  assert (Hreq : forall id wire orc a st' p',
+            ipv6cp_input (vo_local (vs_obj s)) (vs_fsm s) (vo_peer (vs_obj s)) orc id wire = (a, st', p') ->
+            In (Sca id' os) a -> o_data o <> vo_local (vs_obj s)).
+  { intros id wire orc a st' p' Hin Ha.
+    destruct (ipv6cp_wire_ack _ _ _ _ _ _ _ _ _ _ _ Hin Ha) as (_ & _ & A).
+    destruct (A o Ho) as (_ & _ & _ & _ & N). exact N. }
+  assert (Hnosca : forall st i, ~ In (Sca id' os) (fst (rca_event st i)) /\ ~ In (Sca id' os) (fst (rcn_event st i))).
+  { intros st i. unfold rca_event, rcn_event. split;
+      repeat match goal with |- context [match ?x with _ => _ end] => destruct x end; simpl; intuition congruence. }
+  destruct e as [m'|id wire orc|id orc| |w|w]; [discriminate| | | | |]; cbn [v6sess_step] in Hacts.
+  - destruct (ipv6cp_input (vo_local (vs_obj s)) (vs_fsm s) (vo_peer (vs_obj s)) orc id wire) as [[a st'] p'] eqn:E.
+    simpl in Hacts. subst acts. eapply Hreq; eauto.
+  - destruct (ipv6cp_input (vo_local (vs_obj s)) (vs_fsm s) (vo_peer (vs_obj s)) orc id
+                (serialize_options (vs_last s))) as [[a st'] p'] eqn:E.
+    simpl in Hacts. subst acts. eapply Hreq; eauto.
+  - simpl in Hacts. subst acts. exfalso. eapply (proj1 (Hnosca _ _)); eauto.
+  - simpl in Hacts. subst acts. exfalso. eapply (proj2 (Hnosca _ _)); eauto.
+  - simpl in Hacts. subst acts. exfalso. eapply (proj2 (Hnosca _ _)); eauto.
+Qed.
+
+(* ------------------------------------------------------------------ restored sessions *)
+Lemma sess_restore_inv : forall addr d1 d2, usable (Some addr) = true -> sess_inv (sess_restore repaired addr d1 d2).
+Proof.
+  intros addr d1 d2 Hu. destruct (usable_spec _ Hu) as (v & Hv & Hl & Hz). simpl in Hv.
+  exists v. simpl. rewrite Hv. repeat split; auto. right. exists addr. auto.
+Qed.
+
+Lemma restored_adopts_only_assigned : forall addr d1 d2 es,
+  usable (Some addr) = true ->
+  let s := sess_run repaired (sess_restore repaired addr d1 d2) es in
+  (s_fsm s = 0%N /\ s_addr s = None /\ s_open s = false) \/
+  (usable (ic_assigned (s_cfg s)) = true /\
+   (s_addr s = None \/ to4o (s_addr s) = ic_assigned (s_cfg s)) /\
+   (pp_addr (s_peer s) = None \/ pp_addr (s_peer s) = ic_assigned (s_cfg s))).
+Proof.
+  intros addr d1 d2 es Hu s.
+  pose proof (sess_run_ok es _ (or_intror (sess_restore_inv addr d1 d2 Hu))) as H. fold s in H.
+  destruct H as [H|H]; [left; exact H|right].
+  split; [apply usable_assigned_of_inv; exact H|].
+  destruct H as (v & Hv & _ & _ & Ha & Hp). rewrite Hv. split; [|exact Hp].
+  destruct Ha as [Ha|(a & Ha & Hto)]; [left; exact Ha|right; rewrite Ha; exact Hto].
+Qed.
+
+Lemma restored_assigned : forall addr d1 d2, ic_assigned (s_cfg (sess_restore repaired addr d1 d2)) = to4 addr.
+Proof. reflexivity. Qed.
